@@ -194,12 +194,18 @@ class UdpClient(object):
                     pass
                 else:
 
+                    # read everything that has arrived since the last update,
+                    # not just one datagram: a server that sends more often than
+                    # this method is called would otherwise fill the socket
+                    # buffer without bound (ever older messages, and a dead
+                    # server noticed only after the backlog has drained)
                     r, w,_ = select.select([self.sock], [self.sock], [], 0)
 
-                    if r:
+                    while r:
                         datagram, addr = self.sock.recvfrom(Packet.RECV_SIZE)
                         hdr = PacketHeader.from_bytes(False, datagram)
                         self.conn._recv_datagram(hdr, datagram)
+                        r, _, _ = select.select([self.sock], [], [], 0)
 
                     t0 = self.conn.clock()
                     if t0 - self.conn.last_send_time > self.conn.send_interval:
